@@ -331,15 +331,15 @@ func (r *Reach) eval(v ssa.Value) Abs {
 // nonNilConstructors never return nil.
 var nonNilConstructors = map[string]bool{
 	"errors.New": true, "fmt.Errorf": true,
-	"k8s.io/kubernetes/pkg/scheduler/framework.NewStatus":    true,
-	"k8s.io/kubernetes/pkg/scheduler/framework.AsStatus":     true,
-	"k8s.io/kube-scheduler/framework.NewStatus":              true,
-	"k8s.io/kube-scheduler/framework.AsStatus":               true,
-	"k8s.io/apimachinery/pkg/util/errors.NewAggregate":       false,
-	"k8s.io/apimachinery/pkg/api/errors.NewNotFound":         true,
-	"k8s.io/apimachinery/pkg/api/errors.NewBadRequest":       true,
-	"k8s.io/apimachinery/pkg/util/validation/field.Invalid":  true,
-	"k8s.io/apimachinery/pkg/util/validation/field.Required": true,
+	"k8s.io/kubernetes/pkg/scheduler/framework.NewStatus":     true,
+	"k8s.io/kubernetes/pkg/scheduler/framework.AsStatus":      true,
+	"k8s.io/kube-scheduler/framework.NewStatus":               true,
+	"k8s.io/kube-scheduler/framework.AsStatus":                true,
+	"k8s.io/apimachinery/pkg/util/errors.NewAggregate":        false,
+	"k8s.io/apimachinery/pkg/api/errors.NewNotFound":          true,
+	"k8s.io/apimachinery/pkg/api/errors.NewBadRequest":        true,
+	"k8s.io/apimachinery/pkg/util/validation/field.Invalid":   true,
+	"k8s.io/apimachinery/pkg/util/validation/field.Required":  true,
 	"k8s.io/apimachinery/pkg/util/validation/field.Forbidden": true,
 }
 
